@@ -18,7 +18,7 @@ PROPS = {
             'alpha lexer std calls under assumed specs (checked against real std by an exhaustive/random scratch program, not on every run): char::{is_ascii_hexdigit,is_ascii_digit,is_digit,is_ascii_graphic,is_ascii,from_u32,encode_utf8,to_string}, {u8,u32,u128}::from_str_radix on all-digit strings, str::parse::<u128>, String::{len,as_bytes}, str::len'], 'trusted': []},
     'C11': {'units': ['U-VT', 'U-ALIGN', 'U-EXTERN'], 'assumptions': ['permutation invariance (Compiler sorting, feature-gated) and cycle detection (found_container*) are not under contract',
             'align_struct preconditions (struct or word with sized members; layout fits usize) are the typer\'s obligation, not verified'], 'trusted': []},
-    'C08': {'units': ['U-MUT', 'U-MUTW', 'U-FCALL'], 'assumptions': ['the whole-program non-interference consequence is not under contract; constant initialisers are not walked by mutability.rs (relies on constness.rs, not under contract)'], 'trusted': []},
+    'C08': {'units': ['U-VT', 'U-MUT', 'U-MUTW', 'U-FCALL'], 'assumptions': ['the whole-program non-interference consequence is not under contract; constant initialisers are not walked by mutability.rs (relies on constness.rs, not under contract)'], 'trusted': []},
     'C12': {'units': ['U-EXPORT', 'U-KEYOFF'], 'assumptions': ['expand (import fix-point), Compiler multi-module state and split-equivalence are not under contract'], 'trusted': []},
     'C13': {'units': ['U-CODE', 'U-LEXD', 'U-LEXA', 'U-LOC'], 'assumptions': ['rendering (ariadne), parser-side span combination beyond Location::combined_with, and run-to-run determinism (HashMap/HashSet iteration) are not under contract', 'alpha lexer spans: as under C14 (trusted model of str::split_inclusive / strip_suffix)'], 'trusted': []},
     'C14': {'units': ['U-LEXD', 'U-LEXA'], 'assumptions': ['the headline equivalence of the two lexers is not stated as one theorem: each lexer is verified against its own declarative token/span/value spec',
@@ -37,6 +37,8 @@ PROPS = {
 
 # clauses labelled for one property that also decide part of another one (the unit serves both)
 ALSO_RELEVANT = {
+    # a value that silently coerces into a pointer needs no `&`: the coercion relation also decides C08's explicit-address clause
+    'C08': ['C07.vt.only_documented_coercions', 'C07.vt.only_documented_address_coercions', 'C07.vt.autoderef_only_strips_layers'],
     'C14': ['C15.tokbuf.payload', 'C15.tokbuf.packed_word', 'C15.tokbuf.push_appends', 'C15.tokbuf.push_token_appends', 'C15.tokbuf.two_end_of_source'],
     'C13': ['C14.lexa.span', 'C14.lexa.token_span', 'C14.lexa.token_on_given_line', 'C14.lexa.error_token_span', 'C14.lexa.escape_error_span', 'C14.lexa.missing_quote_error_spans',
             'C14.lexa.tokens_appended_with_increasing_spans', 'C14.lexa.line_offset_is', 'C14.lexa.line_is_the_source_text', 'C14.lexa.line_terminator_stripped', 'C14.lexa.every_token_lies_inside', 'C14.lexa.file_token_spans', 'C14.lexa.empty_file_is_reported', 'C14.lexa.offsets_fit'],
